@@ -1,8 +1,10 @@
 """C31 — quasiquote level tracking (thin: level constants and their propagation in render_quoted_form)."""
+CANON = True
+
 import ast
 
 from .. import compq, pyq
-from ..pysrc import dotted, norm
+from ..pysrc import dotted, norm, flat
 
 R = compq.RM
 
@@ -46,7 +48,7 @@ def check(ctx, src):
         lp = lp._parent
     ctx.check(lp is not None and norm(lp.iter) == "form", "QQ-LEVEL", f"{R}|render_quoted_form|children loop", "the recursion must visit every child of the form", R, f.lineno, detail="for x in form")
     sp = pyq.contains(f, lambda n: isinstance(n, ast.If) and norm(n.test) == "splice")
-    t = " ".join(ast.unparse(sp).split()) if sp is not None else ""
+    t = flat(sp) if sp is not None else ""
     ctx.check("f_contents = Expression([Symbol('unpack-iterable'), Expression([Symbol('or'), f_contents, List()])])" in t, "QQ-SPLICE", f"{R}|render_quoted_form|splice", "a splice must become (unpack-iterable (or X []))", R, f.lineno,
               witness="`[1 ~@None] raises TypeError instead of splicing nothing", detail="(unpack-iterable (or X []))")
     ctx.check("`unpack-iterable` is not allowed here" in t, "QQ-SPLICE", f"{R}|render_quoted_form|splice of unpack", "splicing an unpack form must be a syntax error", R, f.lineno, detail="syntax error")
